@@ -10,6 +10,8 @@ from __future__ import annotations
 
 import concurrent.futures as cf
 import json
+import os
+import shutil
 
 from harness import kit, ser
 
@@ -67,12 +69,14 @@ def drive_case(case, extra):
 # ------------------------------------------------------------- classification
 def classify(out, verdicts, byid, envs):
     known = [json.loads(k) for k in out.known]
-    stats = {"SKIP": 0, "REFUSED": 0, "DRIFT": 0, "EVALDIFF": 0}
+    stats = {"SKIP": 0, "REFUSED": 0, "DRIFT": 0, "EVALDIFF": 0, "PTS": 0}
+    failed_ids = set()
     for v in verdicts:
         if v["v"] in stats:
             stats[v["v"]] += v.get("n", 1)
             continue
         rec = byid[v["id"]]
+        failed_ids.add(v["id"])
         res = rec["outs"][v["k"] - 1]
         err = res.get("v", {}).get("e", "") if res["r"] == "err" else ""
         feats = sorted(v.get("feats", []))
@@ -84,14 +88,16 @@ def classify(out, verdicts, byid, envs):
                        "ns": v["ns"], "entries": entries, "point": v["env"], "recorded": res})
     out.skipped += stats["SKIP"]
     out.drift += stats["DRIFT"]
+    out.extra["tree_point_pairs_judged_equal"] = out.extra.get("tree_point_pairs_judged_equal", 0) + stats["PTS"]
     out.extra["refused_as_required_only"] = out.extra.get("refused_as_required_only", 0) + stats["REFUSED"]
     out.extra["evaluator_vs_Eval_disagreements"] = (out.extra.get("evaluator_vs_Eval_disagreements", 0)
                                                     + stats["EVALDIFF"])
+    stats["failed_ids"] = failed_ids
     return stats
 
 
 def judge(out, recs, wd, envs, shard=1500):
-    shards = kit.write_shards(recs, wd / "trace", "c10", shard)
+    shards = kit.write_shards(recs, wd / "trace", f"c10-{os.getpid()}", shard)
     verdicts, st, tr = kit.judge_shards("C10_Judge", "C10_Judge", shards)
     out.states += st
     out.transitions += tr
@@ -124,6 +130,29 @@ def negative_controls(out):
 
 
 # ------------------------------------------------------------------- run
+def _workdir():
+    """A scratch directory of this invocation under .work/C10/ (several ./check C10 may run at the
+    same time on the shared machine; kit.fresh_workdir would wipe the other run's trace shards).
+    Directories left by invocations that are no longer alive are removed."""
+    base = kit.WORK / "C10"
+    base.mkdir(parents=True, exist_ok=True)
+    for c in base.iterdir():
+        if c.name in ("trace", "verdicts.json"):           # layout of earlier versions
+            shutil.rmtree(c, ignore_errors=True) if c.is_dir() else c.unlink()
+        if not c.name.startswith("run-"):
+            continue
+        try:
+            os.kill(int(c.name[4:]), 0)
+        except (ValueError, ProcessLookupError):
+            shutil.rmtree(c, ignore_errors=True)
+        except PermissionError:
+            pass
+    wd = base / f"run-{os.getpid()}"
+    shutil.rmtree(wd, ignore_errors=True)
+    wd.mkdir(parents=True)
+    return wd
+
+
 def _cases(res):
     printed = res.printed()
     envs = next(p["envs"] for p in printed if "envs" in p)
@@ -133,7 +162,7 @@ def _cases(res):
 
 
 def run(tier, seed, out):
-    wd = kit.fresh_workdir("C10")
+    wd = _workdir()
     with cf.ThreadPoolExecutor(max_workers=1) as bg:
         neg = bg.submit(negative_controls, out)
         gen = kit.run_tlc("C10_Gen", f"C10_Gen_{tier}")
@@ -142,7 +171,8 @@ def run(tier, seed, out):
         envs, cases, design = _cases(gen)
         nexh = len(cases)
         if tier == "thorough":
-            sim = kit.run_tlc("C10_Gen", "C10_Gen_sim", simulate="num=12000", depth=12, seed=seed)
+            # -simulate num=N is per worker: 8 x 1500 random behaviours (root, fills, variable)
+            sim = kit.run_tlc("C10_Gen", "C10_Gen_sim", workers=8, simulate="num=1500", depth=14, seed=seed)
             kit.require_clean(sim, "C10 random generation")
             out.add_tlc(sim)
             _, c2, d2 = _cases(sim)
@@ -162,13 +192,21 @@ def run(tier, seed, out):
         out.evaluations += sum(len(r["runs"]) for r in recs)
         stats = judge(out, recs, wd, envs)
         neg.result()
+    shutil.rmtree(wd / "trace", ignore_errors=True)      # the shards are large; verdicts.json stays
     # design-level classes found on the model, by attribution feature
     dclasses = {}
     for d in design:
-        key = d["design"] + ":" + ",".join(sorted(f for f in d["feats"] if f.startswith(("copysign:", "log:")))
-                                          or ["?"])
+        key = d["design"] + ":" + ",".join(sorted(f for f in d["feats"]
+                                                  if f.startswith(("copysign:", "log:", "Power:wrapped"))) or ["?"])
         dclasses[key] = dclasses.get(key, 0) + 1
     out.extra["design_level_failures_on_model"] = dclasses
+    # does the code fail exactly where the transcription fails on the model?
+    pair = lambda e, v: json.dumps([e, v], sort_keys=True)      # noqa: E731
+    mfail = {pair(d["de"], d["dv"]) for d in design}
+    cfail = {pair(det["case"]["e"], det["case"]["v"]) for _, det in out.violations}
+    cfail |= {pair(r["e"], r["v"]) for r in recs if r["id"] in stats["failed_ids"]}
+    out.extra["failing_pairs_model_vs_code"] = {"both": len(mfail & cfail), "model_only": len(mfail - cfail),
+                                                "code_only": len(cfail - mfail)}
     out.extra["records_fully_skipped"] = stats["SKIP"]
     out.extra["records_judged_on_value_or_refusal"] = len(recs) - stats["SKIP"]
     out.extra["differentiate_calls"] = out.evaluations
@@ -198,7 +236,7 @@ def run(tier, seed, out):
 
 
 def replay(path, out):
-    wd = kit.fresh_workdir("C10")
+    wd = _workdir()
     d = json.loads(open(path).read())
     envs = d["detail"]["envs"]
     recs = kit.drive("harness.c10", "drive_case", [d["detail"]["case"]], {"envs": envs})
